@@ -109,8 +109,8 @@ Record module_ast := mkModule {
   m_assigns : list (str * texpr) }.
 
 (* ============================================================ token level *)
-Definition K (k : kw) : token := TKw k.
-Definition Y (p : sym) : token := TSym p.
+Notation K := TKw (only parsing).
+Notation Y := TSym (only parsing).
 
 (* x1 sep x2 sep ... xn *)
 Definition pp_sep {A} (sep : token) (f : A -> list token) : list A -> list token :=
